@@ -570,6 +570,38 @@ func (fb *FB) lenLin1(x ssa.Value) Lin {
 		if same {
 			return first
 		}
+	case *ssa.Extract:
+		// first result of a module function returning (slice, error): its length on the success path
+		if call, ok := s.Tuple.(*ssa.Call); ok && s.Index == 0 {
+			if callee := call.Call.StaticCallee(); callee != nil && callee.Blocks != nil && inModule(fnPkgPath(callee)) && call.Call.Signature().Results().Len() == 2 {
+				if sum, ok := fb.c.lenSummary(callee); ok {
+					out := linConst(sum.C)
+					good := true
+					for k, coef := range sum.T {
+						switch kk := k.(type) {
+						case *ssa.Parameter:
+							if idx := paramIndex(callee, kk); idx >= 0 && idx < len(call.Call.Args) {
+								out = out.add(fb.lin(call.Call.Args[idx]), coef)
+							} else {
+								good = false
+							}
+						case lenKey:
+							p, isP := kk.v.(*ssa.Parameter)
+							if idx := paramIndex(callee, p); isP && idx >= 0 && idx < len(call.Call.Args) {
+								out = out.add(fb.lenLin(call.Call.Args[idx]), coef)
+							} else {
+								good = false
+							}
+						default:
+							good = false
+						}
+					}
+					if good {
+						return out
+					}
+				}
+			}
+		}
 	case *ssa.Call:
 		if b, ok := s.Call.Value.(*ssa.Builtin); ok && b.Name() == "append" {
 			if len(s.Call.Args) == 2 {
@@ -1946,7 +1978,8 @@ func (c *Ctx) lenSummary(fn *ssa.Function) (Lin, bool) {
 	}
 	m[fn] = entry{}
 	res := fn.Signature.Results()
-	if res.Len() != 1 {
+	errIdx := errResultIndex(fn.Signature)
+	if !(res.Len() == 1 || (res.Len() == 2 && errIdx == 1)) {
 		return Lin{}, false
 	}
 	switch res.At(0).Type().Underlying().(type) {
@@ -1958,6 +1991,9 @@ func (c *Ctx) lenSummary(fn *ssa.Function) (Lin, bool) {
 	var first Lin
 	n := 0
 	for _, ret := range returnsOf(fn) {
+		if res.Len() == 2 && !isNilConst(retOperand(ret, errIdx)) {
+			continue // failing return: the slice is not used
+		}
 		l := fb.lenLin(retOperand(ret, 0))
 		if !onlyParamSyms(fn, l) {
 			return Lin{}, false
